@@ -126,13 +126,13 @@ Definition direct_fd (cf : cfg) (s : pstate) (handle inode flags : N) : res hdat
 Definition fd_append (hd : hdata) (flags : N) : bool :=
   if hd_flags hd =? flags then hd_append hd else has flags O_APPEND.
 
-Definition size_step (cf : cfg) (tbl : list (N * idata)) (h2 : host) (inode : N) (hdo : option hdata) (valid size : N) : host :=
+Definition size_step (cf : cfg) (tbl : list (N * idata)) (h2 : host) (inode : N) (hdo : option hdata) (valid size : N) : res unit * host :=
   let c := root_kp (c_killpriv cf && has valid FATTR_KILL_SUIDGID) in
   match hdo with
-  | Some hd => if acc_w (hd_acc hd) then snd (sys_ftruncate c h2 (hd_host hd) size) else h2
+  | Some hd => if acc_w (hd_acc hd) then sys_ftruncate c h2 (hd_host hd) size else (Err EINVAL, h2)
   | None => match direct_open cf c tbl h2 inode (O_NONBLOCK + O_RDWR) with
-            | (Err _, h3) => h3
-            | (Ok (hi, _), h3) => snd (sys_ftruncate c h3 hi size)
+            | (Err e, h3) => (Err e, h3)
+            | (Ok (hi, _), h3) => sys_ftruncate c h3 hi size
             end
   end.
 
@@ -186,9 +186,9 @@ Definition direct_host (cf : cfg) (s : pstate) (q : req) : host :=
   | QFallocate inode handle mode off l =>
       match direct_fd cf s handle inode O_RDWR with
       | (Err _, h') => h'
-      | (Ok hd, h') => if negb (acc_w (hd_acc hd)) then h' else snd (sys_fallocate root_creds h' (hd_host hd) mode off l)
+      | (Ok hd, h') => if l =? 0 then h' else if negb (acc_w (hd_acc hd)) then h' else snd (sys_fallocate root_creds h' (hd_host hd) mode off l)
       end
-  | QSetattr inode handle valid mode uid gid size =>
+  | QSetattr inode handle valid mode uid gid size atime ansec mtime mnsec =>
       match assoc inode (p_inodes s) with
       | None => h
       | Some d =>
@@ -212,8 +212,14 @@ Definition direct_host (cf : cfg) (s : pstate) (q : req) : host :=
             match r2 with
             | Err _ => h2
             | Ok _ =>
-              if has valid FATTR_SIZE then size_step cf (p_inodes s) h2 inode hdo valid size
-              else h2
+              let '(r3, h3) := if has valid FATTR_SIZE then size_step cf (p_inodes s) h2 inode hdo valid size else (Ok tt, h2) in
+              match r3 with
+              | Err _ => h3
+              | Ok _ => if has valid FATTR_ATIME || has valid FATTR_MTIME
+                        then snd (sys_utimens h3 target (time_spec valid FATTR_ATIME_NOW FATTR_ATIME atime ansec)
+                                              (time_spec valid FATTR_MTIME_NOW FATTR_MTIME mtime mnsec))
+                        else h3
+              end
             end
           end
         end
@@ -348,21 +354,38 @@ Qed.
 
 Lemma setattr_size_direct : forall cf s2 inode hdo valid size r3 s3, p_creds s2 = root_creds ->
   setattr_size cf s2 inode hdo valid size = (r3, s3) ->
-  p_host s3 = size_step cf (p_inodes s2) (p_host s2) inode hdo valid size /\ p_inodes s3 = p_inodes s2 /\ p_handles s3 = p_handles s2.
+  (r3, p_host s3) = size_step cf (p_inodes s2) (p_host s2) inode hdo valid size /\ p_inodes s3 = p_inodes s2 /\
+  p_handles s3 = p_handles s2 /\ p_creds s3 = root_creds.
 Proof.
-  intros cf s2 inode hdo valid size r3 s3 Hc Hs. unfold setattr_size in Hs. unfold size_step.
+  intros cf s2 inode hdo valid size r3 s3 Hc Hs. pose proof (setattr_size_creds _ _ _ _ _ _ _ _ Hs Hc) as Hcr.
+  unfold setattr_size in Hs. unfold size_step.
   match type of Hs with with_killpriv ?c ?s0 ?b = _ => destruct (with_killpriv_from_root _ c s0 b Hc) as [c1 [r [s1 [Hb Hw]]]]; rewrite Hw in Hs; inversion Hs; subst r3 s3; clear Hs Hw end.
-  destruct hdo as [hd|].
-  - destruct (acc_w (hd_acc hd)); [|inversion Hb; subst; repeat split; reflexivity].
-    cbn [p_creds p_host with_creds_of with_host] in Hb.
-    match type of Hb with context [sys_ftruncate ?c ?h ?i ?z] => destruct (sys_ftruncate c h i z) as [rr hh] end.
-    inversion Hb; subst. repeat split; reflexivity.
-  - rewrite open_inode_direct in Hb. cbn [p_creds p_host with_creds_of with_host p_inodes] in Hb.
-    destruct (direct_open cf (root_kp (c_killpriv cf && has valid FATTR_KILL_SUIDGID)) (p_inodes s2) (p_host s2) inode (O_NONBLOCK + O_RDWR)) as [[[hi fl]|e] h3];
-      cbn [fst snd p_creds p_host with_host with_creds_of] in Hb.
-    + match type of Hb with context [sys_ftruncate ?c ?h ?i ?z] => destruct (sys_ftruncate c h i z) as [rr hh] end.
-      inversion Hb; subst. repeat split; reflexivity.
-    + inversion Hb; subst. repeat split; reflexivity.
+  split; [|split; [|split; [|exact Hcr]]].
+  - destruct hdo as [hd|].
+    + destruct (acc_w (hd_acc hd)); [|inversion Hb; subst; reflexivity].
+      cbn [p_creds p_host with_creds_of with_host] in Hb.
+      match type of Hb with context [sys_ftruncate ?c ?h ?i ?z] => destruct (sys_ftruncate c h i z) as [rr hh] end.
+      inversion Hb; subst. reflexivity.
+    + rewrite open_inode_direct in Hb. cbn [p_creds p_host with_creds_of with_host p_inodes] in Hb.
+      destruct (direct_open cf (root_kp (c_killpriv cf && has valid FATTR_KILL_SUIDGID)) (p_inodes s2) (p_host s2) inode (O_NONBLOCK + O_RDWR)) as [[[hi fl]|e] h3];
+        cbn [fst snd p_creds p_host with_host with_creds_of] in Hb.
+      * match type of Hb with context [sys_ftruncate ?c ?h ?i ?z] => destruct (sys_ftruncate c h i z) as [rr hh] end.
+        inversion Hb; subst. reflexivity.
+      * inversion Hb; subst. reflexivity.
+  - destruct hdo as [hd|].
+    + destruct (acc_w (hd_acc hd)); [|inversion Hb; subst; reflexivity].
+      cbn in Hb. match type of Hb with context [sys_ftruncate ?c ?h ?i ?z] => destruct (sys_ftruncate c h i z) as [rr hh] end. inversion Hb; subst. reflexivity.
+    + rewrite open_inode_direct in Hb.
+      match type of Hb with context [direct_open ?x1 ?x2 ?x3 ?x4 ?x5 ?x6] => destruct (direct_open x1 x2 x3 x4 x5 x6) as [[[hi fl]|e] h3] end; cbn [fst snd] in Hb.
+      * match type of Hb with context [sys_ftruncate ?c ?h ?i ?z] => destruct (sys_ftruncate c h i z) as [rr hh] end. inversion Hb; subst. reflexivity.
+      * inversion Hb; subst. reflexivity.
+  - destruct hdo as [hd|].
+    + destruct (acc_w (hd_acc hd)); [|inversion Hb; subst; reflexivity].
+      cbn in Hb. match type of Hb with context [sys_ftruncate ?c ?h ?i ?z] => destruct (sys_ftruncate c h i z) as [rr hh] end. inversion Hb; subst. reflexivity.
+    + rewrite open_inode_direct in Hb.
+      match type of Hb with context [direct_open ?x1 ?x2 ?x3 ?x4 ?x5 ?x6] => destruct (direct_open x1 x2 x3 x4 x5 x6) as [[[hi fl]|e] h3] end; cbn [fst snd] in Hb.
+      * match type of Hb with context [sys_ftruncate ?c ?h ?i ?z] => destruct (sys_ftruncate c h i z) as [rr hh] end. inversion Hb; subst. reflexivity.
+      * inversion Hb; subst. reflexivity.
 Qed.
 
 Lemma with_creds_from_root_r : forall A uid gid s (body : pstate -> res A * pstate),
@@ -376,7 +399,6 @@ Proof.
   pose proof (proj1 (with_creds_root _ _ _ _ _ _ _ Hk Hw) Hc) as Hr. cbn in Hr. subst c. exact Hw.
 Qed.
 
-(* what do_lookup returns and records *)
 Lemma do_lookup_spec : forall s p n r s2 dir, assoc p (p_inodes s) = Some dir -> do_lookup s p n = (r, s2) ->
   p_host s2 = p_host s /\ p_creds s2 = p_creds s /\ p_handles s2 = p_handles s /\
   match lookup1 (p_creds s) (p_host s) (id_host dir) (lookup_name (p =? ROOT_ID) n) with
@@ -469,11 +491,25 @@ Proof.
         | inversion X2; subst; reflexivity ]
       | rewrite E2 in H; clear E2 ] end.
     destruct r2 as [u2|e2]; [|inv4 H; reflexivity].
-    destruct (has valid FATTR_SIZE).
-    + match type of H with context [setattr_size ?a ?b ?c ?d0 ?e ?f] => destruct (setattr_size a b c d0 e f) as [r3 s3] eqn:Hs end.
-      destruct (setattr_size_direct _ (with_host s h2) _ _ _ _ _ _ Hc Hs) as [Hh _]. cbn [p_inodes p_host with_host] in Hh.
-      destruct r3; [|inv4 H; exact Hh]. destruct (do_getattr cf s3 inode handle); inv4 H; exact Hh.
-    + destruct (do_getattr cf (with_host s h2) inode handle); inv4 H; reflexivity.
+    match goal with |- context [if has valid FATTR_SIZE then ?a else ?b] => destruct (if has valid FATTR_SIZE then a else b) as [r3 h3] eqn:X3 end.
+    match type of H with context [let '(r3, s3) := ?x in _] => destruct x as [r3' s3] eqn:H3 end.
+    assert (E3 : r3' = r3 /\ p_host s3 = h3 /\ p_creds s3 = root_creds).
+    { destruct (has valid FATTR_SIZE).
+      - destruct (setattr_size_direct _ (with_host s h2) _ _ _ _ _ _ Hc H3) as [Hh [_ [_ Hcr]]]. cbn [p_inodes p_host with_host] in Hh.
+        rewrite X3 in Hh. inversion Hh; subst. repeat split; assumption.
+      - inversion H3; inversion X3; subst. repeat split; assumption || reflexivity. }
+    destruct E3 as [-> [Hh3 Hc3]].
+    destruct r3 as [u3|e3]; [|inv4 H; reflexivity].
+    match type of H with context [let '(r4, s4) := ?x in _] => destruct x as [r4 s4] eqn:H4 end.
+    assert (E4 : p_host s4 = (if has valid FATTR_ATIME || has valid FATTR_MTIME
+                              then snd (sys_utimens (p_host s3) (match hdo with Some hd => hd_host hd | None => id_host d end)
+                                          (time_spec valid FATTR_ATIME_NOW FATTR_ATIME atime ansec) (time_spec valid FATTR_MTIME_NOW FATTR_MTIME mtime mnsec))
+                              else p_host s3)).
+    { destruct (has valid FATTR_ATIME || has valid FATTR_MTIME); [|inversion H4; subst; reflexivity].
+      match type of H4 with context [sys_utimens ?h ?i ?a ?m] => destruct (sys_utimens h i a m) as [rr hh] end. inversion H4; subst. reflexivity. }
+    assert (Hfin : p_host s' = p_host s4).
+    { destruct r4; [|inv4 H; reflexivity]. destruct (do_getattr cf s4 inode handle); inv4 H; reflexivity. }
+    rewrite Hfin, E4, Hh3. reflexivity.
   - (* mkdir *)
     destruct (validate cf n); [inv4 H; reflexivity|].
     destruct (assoc parent (p_inodes s)) as [d|] eqn:Ha; cbn [option_map].
@@ -606,6 +642,7 @@ Proof.
     destruct (get_data_direct _ _ _ _ _ _ _ Hc Hg) as [Hh1 [Hc1 [_ [_ Hr]]]].
     destruct (direct_fd cf s handle inode O_RDWR) as [rd hd0] eqn:Hd. cbn [fst snd] in Hh1, Hr.
     destruct r as [[hid hd]|e]; [|subst rd; fin4 H; exact Hh1]. subst rd.
+    destruct (l =? 0); [fin4 H; exact Hh1|].
     destruct (negb (acc_w (hd_acc hd))); [fin4 H; exact Hh1|].
     rewrite Hc1, Hh1 in H.
     destruct (sys_fallocate root_creds hd0 (hd_host hd) mode off l) as [[u|e] h']; fin4 H; reflexivity.
@@ -884,7 +921,7 @@ Lemma descriptor_before_creds : shape_descriptor_before_set_creds = true.
 Proof. vm_compute. reflexivity. Qed.
 
 (* non-vacuity of the hypotheses used above *)
-Definition wit_host : host := mkHost [(10, mkInode (KDir [] 10 false) 511 0 0 [])] 11.
+Definition wit_host : host := mkHost [(10, mkInode (KDir [] 10 false) 511 0 0 [])] 11 [].
 Definition wit_cfg : cfg := mkCfg true false false false false true 2 true.
 Lemma wit_ok : p_creds (init_state wit_host 10) = root_creds /\ host_wf (p_host (init_state wit_host 10)) /\
   (exists a io s', create_then_lookup (init_state wit_host 10) 1000 1000 ROOT_ID [110]
@@ -899,3 +936,25 @@ Qed.
 
 Lemma create_flag_use : shape_create_flag_use = true.
 Proof. vm_compute. reflexivity. Qed.
+
+(* ---- setattr applies exactly the requested subset of the time stamps: the utimens step runs iff ATIME or MTIME
+   is valid, on the handle's inode (or the inode itself), with set / now / omit per field as requested *)
+Theorem utimens_exact : forall h i a m h', get h i <> None -> sys_utimens h i a m = (Ok tt, h') ->
+  utimes_of h' i = (tv_apply a (fst (utimes_of h i)), tv_apply m (snd (utimes_of h i))) /\
+  (forall j, j <> i -> utimes_of h' j = utimes_of h j) /\ (forall j, get h' j = get h j) /\ h_next h' = h_next h.
+Proof.
+  intros h i a m h' Hg H. unfold sys_utimens in H. destruct (get h i); [|contradiction]. inversion H; subst. clear H.
+  split; [unfold utimes_of at 1; cbn [h_utimes]; rewrite assoc_set_same; reflexivity|].
+  split; [intros j Hj; unfold utimes_of; cbn [h_utimes]; rewrite assoc_set_other by exact Hj; reflexivity|].
+  split; reflexivity.
+Qed.
+
+Theorem time_spec_cases : forall valid nb sb sec nsec,
+  time_spec valid nb sb sec nsec =
+  (if has valid nb then TNow else if has valid sb then TSet sec nsec else TKeep) /\
+  (has valid nb = false -> has valid sb = false -> forall old, tv_apply (time_spec valid nb sb sec nsec) old = old) /\
+  (has valid nb = false -> has valid sb = true -> forall old, tv_apply (time_spec valid nb sb sec nsec) old = TSet sec nsec) /\
+  (has valid nb = true -> forall old, tv_apply (time_spec valid nb sb sec nsec) old = TNow).
+Proof.
+  intros. unfold time_spec. split; [reflexivity|]. repeat split; intros; repeat match goal with H : has _ _ = _ |- _ => rewrite H end; reflexivity.
+Qed.
